@@ -207,19 +207,26 @@ def plan_lits(case, r):
             o = 'None' if k['out'] is None else '(Some (%s, %s))' % (zm(k['out'][0]), zm(k['out'][1]))
             out.append(('check_posdiag_case', '((%d%%nat, %d%%nat, %d%%nat, %s, %s, %s) : posdiag_case_t)' % (
                 k['M'], k['P'], k['N'], zm(k['Q']), zm(k['R']), o)))
+        if 'qfill' in r:
+            f = r['qfill']
+            out.append(('check_qr_fill_case', '((%s, %s, (%s, %s)) : qr_fill_case_t)' % (
+                nl(f['rs']), nl(f['rows']), qdata_lit(f['qd']), '[' + '; '.join(zm(m) for m in f['extra']) + ']')))
         return out
     if what == 'svdasm':
         if 'raised' in r:
             return []
         fs = '[' + '; '.join('(%d%%nat, %d%%nat, (%d%%nat, %s, %s, %s))' % (i, j, n, zm(U), zl(S), zm(V)) for i, j, n, U, S, V in r['fs']) + ']'
-        return [('check_svd_dense_case', '((%s, %s, %s, %s, (%s, %s, %s, %s)) : svd_dense_case_t)' % (
+        out = [('check_svd_dense_case', '((%s, %s, %s, %s, (%s, %s, %s, %s)) : svd_dense_case_t)' % (
             nl(r['rs']), nl(r['cs']), fs, 'true' if case['opts']['full_matrices'] else 'false',
             ents_lit(r['U']), zl(r['S']), ents_lit(r['V']), nl(r['ns'])))]
+        if case['opts']['full_matrices']:
+            out.append(('check_svd_vfull_case', '((%s, %s, %s) : svd_vfull_case_t)' % (nl(r['cs']), fs, ents_lit(r['V']))))
+        return out
     return []
 
 
 PLAN_IMPORTS = ['Base.Prelude', 'Model.ChargeL', 'Model.Leg', 'Model.Factor', 'Model.FactorCase', 'Model.Factor2', 'Model.FactorDense',
-                'Model.FactorCase2']
+                'Model.FactorDense2', 'Model.FactorDense3', 'Model.FactorCase2', 'Model.FactorCase3']
 
 
 def run_chunks(kind, cases, config='py', n=None):
@@ -261,7 +268,7 @@ def match_key(key):
 
 def main(ctx):
     rng = ctx.rng
-    ctx.proof = common.check_proofs('C05', extra_targets=['Model/FactorCase.vo', 'Model/FactorCase2.vo'])
+    ctx.proof = common.check_proofs('C05', extra_targets=['Model/FactorCase.vo', 'Model/FactorCase2.vo', 'Model/FactorCase3.vo'])
     boost = 1 if ctx.proof.ok else 3
     base = ctx.seed * 1000003
     streams = [
@@ -333,7 +340,7 @@ def main(ctx):
         if lq_lits:
             plan['check_lq_case'] = (lq_lits, lq_idx)
         from concurrent.futures import ThreadPoolExecutor
-        with ThreadPoolExecutor(max_workers=4) as ex:          # one coqc per checker and shard; the checkers run side by side
+        with ThreadPoolExecutor(max_workers=6) as ex:          # one coqc per checker and shard; the checkers run side by side
             futs = {chk: ex.submit(common.coq_failing_indices, 'cases_c05_' + chk, PLAN_IMPORTS, chk, pl, shard=100)
                     for chk, (pl, pidx) in plan.items()}
         for chk, (pl, pidx) in sorted(plan.items()):
